@@ -136,6 +136,14 @@ func (e *endpoint) handleICMP(r *stack.Route, vv buffer.VectorisedView) {
 		if len(v) < header.ICMPv6EchoMinimumSize {
 			return
 		}
+		// A request that was damaged on the way must not be answered: the reply
+		// would carry a fresh, valid checksum over the damaged bytes.
+		// 校验和不正确的echo请求直接丢弃
+		xsum := header.PseudoHeaderChecksum(header.ICMPv6ProtocolNumber, r.RemoteAddress, r.LocalAddress)
+		xsum = header.ChecksumCombine(xsum, uint16(vv.Size()))
+		if header.Checksum(vv.ToView(), xsum) != 0xffff {
+			return
+		}
 		vv.TrimFront(header.ICMPv6EchoMinimumSize)
 		hdr := buffer.NewPrependable(int(r.MaxHeaderLength()) + header.IPv6MinimumSize + header.ICMPv6EchoMinimumSize)
 		pkt := header.ICMPv6(hdr.Prepend(header.ICMPv6EchoMinimumSize))
